@@ -275,6 +275,7 @@ BASE_POINT = {
     'evorder': 'grouped', # D4b: grouped (ins then outs) | interleaved (in,out,in,out,...) | outsfirst
     'mc': 'none',         # D9: none | p0:<granting index> | p1:<granting index>
     'mcsig': 'io',        # D9b: formals of claim/release: io = claim(in,out) release(out) | none | inout = claim(inout) release(in)
+    'mcmenu': 'full',     # D9c: full = claim, release, two other in-events, two out-events | bare = claim, release, one out-event
     'kind': 'component',  # D10
     'prefix': '',         # D11: '' | 'Other.Project'
 }
@@ -295,6 +296,7 @@ DIMS = {
     'fac': ['create', 'import'],
     'mc': ['none', 'p0:0', 'p0:1', 'p0:2', 'p0:3', 'p1:0'],
     'mcsig': ['io', 'none', 'inout'],
+    'mcmenu': ['full', 'bare'],
     'kind': ['component', 'system'],
     'prefix': ['', 'Other.Project'],
 }
@@ -356,10 +358,13 @@ def menu_events(menu):
     return evs
 
 
-def mc_events(evnames, mcsig='io'):
+def mc_events(evnames, mcsig='io', mcmenu='full'):
     claim, release = CLAIM_NAMES[evnames]
     cf = {'io': [['a', ['T1'], 'in'], ['b', ['T2'], 'out']], 'none': [], 'inout': [['a', ['T1'], 'inout']]}[mcsig]
     rf = {'io': [['b', ['T2'], 'out']], 'none': [], 'inout': [['b', ['T2'], 'in']]}[mcsig]
+    if mcmenu == 'bare':
+        # nothing but the claim and release events and one out-event
+        return [[claim, 'in', ['Res'], cf], [release, 'in', ['void'], rf], ['Evt', 'out', ['void'], [['a', ['T1'], 'in']]]]
     return [[claim, 'in', ['Res'], cf],
             [release, 'in', ['void'], rf],
             ['Other', 'in', ['void'], [['a', ['T1'], 'in']]],
@@ -393,6 +398,8 @@ def valid_point(pt):
     if pt['rsem'] in ('firstmts', 'firststs', 'lastmts', 'laststs') and pt['nreq'] < 2:
         return False
     if pt.get('mcsig', 'io') != 'io' and pt['mc'] == 'none':
+        return False
+    if pt.get('mcmenu', 'full') != 'full' and pt['mc'] == 'none':
         return False
     if pt['nreq'] == 0 and pt['rsem'] != 'allmts':
         return False
@@ -441,7 +448,7 @@ def build_model(pt):
     interfaces = []
 
     def make_itf(name, is_mc):
-        events = mc_events(pt['evnames'], pt.get('mcsig', 'io')) if is_mc else menu_events(pt['menu'])
+        events = mc_events(pt['evnames'], pt.get('mcsig', 'io'), pt.get('mcmenu', 'full')) if is_mc else menu_events(pt['menu'])
         events = reorder(events, pt.get('evorder', 'grouped'))
         node = ['interface', name, [list(t) for t in types], events]
         if split:
